@@ -4,7 +4,7 @@
 import glob, json, os, re, shutil, subprocess, sys
 WT = os.environ.get("MUT_WT", "/var/tmp/wt1")
 for pid in sys.argv[1:]:
-    out = "/var/tmp/mw/out-" + pid
+    out = "/var/tmp/mw/%s-%s" % (os.environ.get("MUT_OUT", "out"), pid)
     for tag in ("A", "B"):
         if not (os.path.exists("%s/%s.diff" % (out, tag)) and os.path.exists("%s/%s_demo.py" % (out, tag))):
             print(pid, tag, "missing deliverables"); continue
@@ -24,7 +24,7 @@ for pid in sys.argv[1:]:
         except Exception:
             j = {}
         meta = {"property": pid, "summary": j.get("summary", ""), "needs_to_manifest": j.get("needs_to_manifest", ""),
-                "files_changed": j.get("files_changed", []), "round": 2,
+                "files_changed": j.get("files_changed", []), "round": int(os.environ.get("MUT_ROUND", "2")),
                 "author": "independent sub-agent given only the property text and a scratch worktree (asked for changes that need something specific to manifest)"}
         json.dump(meta, open(d + "/meta.json", "w"), indent=1)
         open(marker, "w").write(sid)
